@@ -2,9 +2,9 @@
    validate = the chain of argument checks of multitensor_factorization, in source order; shape_consistent = the
    declarative list of the property.  Unbounded over all sizes (including the integer-square-root step).
    Only statements; every proof is `exact <lemma>` (proofs live in the files imported below). *)
-From Coq Require Import Arith List Bool.
+From Coq Require Import List Arith Bool NArith ZArith Floats.
 Import ListNotations.
-From MT Require Import Arith SweepModel GraphModel InitModel CtrlModel MainModel MainProofs.
+From MT Require Import Arith SweepModel GraphModel InitModel CtrlModel MainModel MainProofs CliModel Mt19937 SeededModel CliMain CliMainProofs.
 
 (* a request is accepted exactly when it is shape-consistent: non-empty edge list, equally long source/target lists, *)
 (* weights a positive multiple L of the record count, K >= 2 with |affinity| = K*K*L (K*L assortative), N >= 2 distinct *)
@@ -40,25 +40,23 @@ Theorem C15_reject_codes : forall (label : Type) (leqb : label -> label -> bool)
         Reject 2 <-> 1 <= length starts /\ length ends <> length starts) /\
        (validate label leqb wt assort starts ends weights aff_size u_rows u_cols r maxit nconv =
         Reject 3 <->
-        1 <= length starts /\
-        length ends = length starts /\ PeanoNat.Nat.modulo (length weights) (length starts) <> 0) /\
+        1 <= length starts /\ length ends = length starts /\ length weights mod length starts <> 0) /\
        (validate label leqb wt assort starts ends weights aff_size u_rows u_cols r maxit nconv =
         Reject 4 <->
         1 <= length starts /\
         length ends = length starts /\
-        PeanoNat.Nat.modulo (length weights) (length starts) = 0 /\
-        PeanoNat.Nat.div (length weights) (length starts) < 1) /\
+        length weights mod length starts = 0 /\ length weights / length starts < 1) /\
        (validate label leqb wt assort starts ends weights aff_size u_rows u_cols r maxit nconv =
         Reject 5 <->
         1 <= length starts /\
         length ends = length starts /\
-        PeanoNat.Nat.modulo (length weights) (length starts) = 0 /\
+        length weights mod length starts = 0 /\
         1 <= cL label wt starts weights /\ cK label wt assort starts weights aff_size < 2) /\
        (validate label leqb wt assort starts ends weights aff_size u_rows u_cols r maxit nconv =
         Reject 6 <->
         1 <= length starts /\
         length ends = length starts /\
-        PeanoNat.Nat.modulo (length weights) (length starts) = 0 /\
+        length weights mod length starts = 0 /\
         1 <= cL label wt starts weights /\
         2 <= cK label wt assort starts weights aff_size /\
         (if assort
@@ -70,7 +68,7 @@ Theorem C15_reject_codes : forall (label : Type) (leqb : label -> label -> bool)
         Reject 7 <->
         1 <= length starts /\
         length ends = length starts /\
-        PeanoNat.Nat.modulo (length weights) (length starts) = 0 /\
+        length weights mod length starts = 0 /\
         1 <= cL label wt starts weights /\
         2 <= cK label wt assort starts weights aff_size /\
         (if assort
@@ -82,7 +80,7 @@ Theorem C15_reject_codes : forall (label : Type) (leqb : label -> label -> bool)
         Reject 8 <->
         1 <= length starts /\
         length ends = length starts /\
-        PeanoNat.Nat.modulo (length weights) (length starts) = 0 /\
+        length weights mod length starts = 0 /\
         1 <= cL label wt starts weights /\
         2 <= cK label wt assort starts weights aff_size /\
         (if assort
@@ -96,7 +94,7 @@ Theorem C15_reject_codes : forall (label : Type) (leqb : label -> label -> bool)
         Reject 9 <->
         1 <= length starts /\
         length ends = length starts /\
-        PeanoNat.Nat.modulo (length weights) (length starts) = 0 /\
+        length weights mod length starts = 0 /\
         1 <= cL label wt starts weights /\
         2 <= cK label wt assort starts weights aff_size /\
         (if assort
@@ -111,7 +109,7 @@ Theorem C15_reject_codes : forall (label : Type) (leqb : label -> label -> bool)
         Reject 10 <->
         1 <= length starts /\
         length ends = length starts /\
-        PeanoNat.Nat.modulo (length weights) (length starts) = 0 /\
+        length weights mod length starts = 0 /\
         1 <= cL label wt starts weights /\
         2 <= cK label wt assort starts weights aff_size /\
         (if assort
@@ -126,7 +124,7 @@ Theorem C15_reject_codes : forall (label : Type) (leqb : label -> label -> bool)
         Reject 11 <->
         1 <= length starts /\
         length ends = length starts /\
-        PeanoNat.Nat.modulo (length weights) (length starts) = 0 /\
+        length weights mod length starts = 0 /\
         1 <= cL label wt starts weights /\
         2 <= cK label wt assort starts weights aff_size /\
         (if assort
@@ -170,4 +168,47 @@ Theorem C15_accepted_never_fails : forall (num : Type) (A : Arith num) (label : 
            nconv u_rows u_cols u0 v0 aff0 stream = Ok num label res.
 Proof. exact factorize_accept_ok. Qed.
 Print Assumptions C15_accepted_never_fails.
+
+(* the command line (CliMain.cli_main): either an exception leaves main() -- no directory is created, no file written or altered -- or all result files are written *)
+Theorem C15_cli_ends_abnormally_or_writes_all : forall (A : Arith float) (stoi : str -> option Z) (fs : str -> option (list byte)) 
+         (now : Z) (tokenize : list byte -> list (list str)) (is_hash : str -> bool)
+         (pnum : str -> option float) (puint : str -> option nat) (fmt fmt_int : float -> str)
+         (fmt_nat : nat -> str) (fmt_N : N -> str) (fmt_Z : Z -> str) (word : nat -> str)
+         (reason_name : reason -> str) (argv : list str),
+       (exists st : nat,
+          cli_main A stoi fs now tokenize is_hash pnum puint fmt fmt_int fmt_nat fmt_N fmt_Z word
+            reason_name argv = CliThrow st /\ 1 <= st <= 5) \/
+       (exists (d : str) (fl : list (str * list (list str))),
+          cli_main A stoi fs now tokenize is_hash pnum puint fmt fmt_int fmt_nat fmt_N fmt_Z word
+            reason_name argv = CliOk d fl).
+Proof. exact cli_main_rejected_writes_nothing. Qed.
+Print Assumptions C15_cli_ends_abnormally_or_writes_all.
+
+(* and whenever the library rejects the request the command line takes the first branch (stage 5), whatever the options and files were *)
+Theorem C15_cli_library_rejection : forall (A : Arith float) (stoi : str -> option Z) (fs : str -> option (list byte)) 
+         (now : Z) (tokenize : list byte -> list (list str)) (is_hash : str -> bool)
+         (pnum : str -> option float) (puint : str -> option nat) (fmt fmt_int : float -> str)
+         (fmt_nat : nat -> str) (fmt_N : N -> str) (fmt_Z : Z -> str) (word : nat -> str)
+         (reason_name : reason -> str) (argv : list str) (c : cli_cfg) (bytes : list byte)
+         (starts ends weights : list N) (sd : Z) (code : nat),
+       parse_options stoi argv = Some c ->
+       fs (c_adj c) = Some bytes ->
+       parse_adjacency bytes = (starts, ends, weights) ->
+       c_wfile c = [] ->
+       seed_of stoi now (c_seed c) = Some sd ->
+       let nv := get_num_vertices N N.eqb starts ends in
+       let L := match starts with
+                | [] => 0
+                | _ :: _ => length weights / length starts
+                end in
+       factorize_seeded A N N.eqb N N.to_nat (fun (_ _ : nat) (x : float) => x) 
+         (c_directed c) (c_assort c) false starts ends weights (c_r c) (c_maxit c) 
+         (c_nconv c) nv (c_K c) (zeros float A nv (c_K c))
+         (if c_directed c then zeros float A nv (c_K c) else [])
+         (repeat (zero A) (if c_assort c then c_K c * L else c_K c * c_K c * L)) sd =
+       Error float N code ->
+       cli_main A stoi fs now tokenize is_hash pnum puint fmt fmt_int fmt_nat fmt_N fmt_Z word
+         reason_name argv = CliThrow 5.
+Proof. exact cli_main_library_error. Qed.
+Print Assumptions C15_cli_library_rejection.
 
